@@ -18,6 +18,7 @@ from .moment import _ALL, _EVENT, _GROUP_ID, _LABEL, _SIGN, ClassificationMoment
 _UPPER_BOUND_DIFF = "upper_bound_diff"
 _LOWER_BOUND_DIFF = "lower_bound_diff"
 _MESSAGE_INVALID_BOUNDS = "Only one of difference_bound and ratio_bound can be used."
+_MESSAGE_NEGATIVE_SLACK = "difference_bound and ratio_bound_slack must be non-negative."
 _DEFAULT_DIFFERENCE_BOUND = 0.01
 
 _CTRL_EVENT_FORMAT = "control={0},{1}"
@@ -112,6 +113,8 @@ class UtilityParity(ClassificationMoment):
         else:
             # both difference_bound and ratio_bound specified
             raise ValueError(_MESSAGE_INVALID_BOUNDS)
+        if self.eps < 0:
+            raise ValueError(_MESSAGE_NEGATIVE_SLACK)
 
     @property
     def index(self) -> pd.MultiIndex:
